@@ -289,6 +289,7 @@ impl Driver {
             self.rec.end();
             let jops = core.disk.journal_from(j0);
             ev["jn"] = json!(jops.len());
+            ev["jc"] = journal_classes(&jops);
             ev["leak"] = leak_scan(&core.disk.images());
             if let Some(js) = crate::checks::js_records(core) {
                 ev["js"] = js;
@@ -665,6 +666,12 @@ fn jclass(op: &JOp, hdr_seen: &mut u32, trunc_seen: &mut u32) -> String {
         }
         _ => "other".into(),
     }
+}
+
+/// The journal of one call as operation classes (spec/StoreOrder.tla)
+pub fn journal_classes(jops: &[JOp]) -> Value {
+    let (mut h, mut t) = (0, 0);
+    json!(jops.iter().map(|o| jclass(o, &mut h, &mut t)).collect::<Vec<String>>())
 }
 
 /// Number of journal operations that precede program counter `pc` of spec/HcStore.tla: the
